@@ -22,9 +22,27 @@ CLAIMED.update({
     "C02": dict(machine="topo", design_ref="4/C02", technique="modifying-call histories with invalid-argument faults, invariants checked after every step",
                 text="exploration: seeded histories of 3-40 public modifying calls with valid and invalid arguments (restrict with all flag words, Misc and Group insertion incl. conflicting/empty/dont_merge/equal-to-existing, allow, info edits, subtype, refresh, userdata); after every step the full canonical dump is taken, the independent WF checker and hwloc_topology_check() run, calls documented to fail without effect must leave the dump byte-identical, gp_index never changes type, userdata tokens of survivors are untouched, other replicas do not move.",
                 note=TRUST),
+    "C05": dict(machine="topo", design_ref="4/C05", technique="XML persist-and-restart inside histories, lock-step replicas, 4 back-end pairings",
+                text="exploration: xml_restart (export via file or buffer, v3 or v2 format, fresh init + same flags + all types kept + load) at arbitrary points of modifying histories, under the four nolibxml/libxml export x import pairings (process classes); oracles: reload succeeds, projected canonical dump equal (exactly the fields the statement lists), userdata records delivered to the import callback as exported (names, bytes incl. zero length and base64, counts), re-export byte-identical, later ops applied to both replicas keep them equal (lock-step).",
+                note=TRUST + "; three genuine defects are recorded as known findings (nolibxml element-content escaping, redundant Group level, overlapping memattr initiators) plus the memory-child complete_cpuset asymmetry; strings use the characters the exporter keeps"),
+    "C12": dict(machine="topo", design_ref="4/C12", technique="dup replicas: equivalence, independence, lock-step, destroy order",
+                text="exploration: hwloc_topology_dup taken at arbitrary history points (also of dups and XML-restarted replicas); at dup time full dumps (userdata pointers included) and XML exports must be identical and the source untouched; afterwards an op on one copy never moves the other's dump, the same op on both keeps them equal, and replicas are destroyed mid-history and at the end in seeded order under ASan + LeakSanitizer (double free / use after free / leak = shared storage).",
+                note=TRUST),
     "C08": dict(machine="topo", design_ref="4/C08", technique="restrict histories judged by a relational before/after oracle keyed by gp_index; atomic refusal",
                 text="exploration: histories with restrict weighted up (cpuset and nodeset, 32 flag words + unknown bit, sub/super/disjoint/infinite/empty sets) on topologies with Misc/I-O objects and CPU-less/memory-less nodes; each call is judged relationally on the dumps before/after: root/complete/allowed sets, exact PU/NUMA survival, every survivor = old object with old sets minus dropped resources, disappearance only when nothing is left below or by level merging with a same-sets twin, Misc/I-O dropped or re-attached to the closest surviving ancestor (or the twin of a merged one), EINVAL => dump unchanged.",
                 note=TRUST),
+})
+ENGINE_TEXT.update({
+    "bind": "hwloc's real Linux binding hooks against a model kernel linked under --wrap (sched_*affinity, syscall mbind/set_mempolicy/..., sysfs possible files); refusals injected by the model",
+    "sched": "real pthreads parked under a seeded baton scheduler; compile-time TSan instrumentation feeding our own runtime (pre-emption points + happens-before race detector + digest replay)",
+})
+CLAIMED.update({
+    "C10": dict(machine="bind", design_ref="4/C10", technique="hwloc's Linux binding hooks run against a model kernel that observes and refuses",
+                text="exploration: every cpubind/membind entry point with valid, empty, out-of-range, infinite and covering sets, all flag words and policies, on foreign, forced-thissystem, dup'ed and natively loaded topologies; the model kernel (20 process classes: cpumask size x PREFERRED_MANY support x sysfs readability) records what reaches the OS: rejected arguments never reach it, covering sets arrive as the complete set, others bit-exact, get-after-set round trip, last-cpu-location inside, ENOSYS without hook, foreign topologies have no system effect, hwloc_topology_load() restores the caller's binding even when per-PU binds are refused.",
+                note=TRUST + "; the clause 'on the running system' is decided against the model kernel running hwloc's real Linux code, not against Linux; the real kernel is never asked"),
+    "C17": dict(machine="sched", design_ref="4/C17", technique="seeded baton scheduler over instrumented accesses + happens-before race oracle + single-threaded digest replay",
+                text="exploration: workload A = 2-4 reader tasks running consulting calls on one loaded/modified/refreshed topology, workload B = tasks each running an independent init/load/modify/export/destroy history; every load/store of hwloc (compile-time TSan instrumentation, own runtime) is a pre-emption point and feeds a vector-clock happens-before detector with byte-exact shadow; schedules by PCT, random switch or switch-at-calls from the plan; oracles: no heap race, no static race except idempotent once-inits (listed by symbol), per-task result digests equal a single-threaded replay, topology digest unchanged, no deadlock. Each batch self-tests the detector on the documented-unsafe no-refresh workload.",
+                note=TRUST + "; sequentially consistent schedule search, races judged at C11 happens-before level; accesses inside uninstrumented libc/libxml2 are atomic under the baton and unobserved except wrapped memcpy/memmove/memset/qsort/strdup"),
 })
 PLANNED = "check not built yet at this commit (planned, DESIGN.md section 4)"
 NOT_APPLICABLE = {
@@ -32,6 +50,6 @@ NOT_APPLICABLE = {
     "C11": "pure functions of (type, attributes, flags, buffer size) and of a string; hwloc_compare_types is a constant table (DESIGN.md section 2); termination/memory safety of the printers on corrupted-XML objects is exercised under C06",
     "C20": "single-shot command-line processes whose output is a pure function of argv and one input file; deciding it is differential testing, not simulation (DESIGN.md section 2)",
 }
-for _p in ["C01", "C02", "C05", "C06", "C08", "C09", "C10", "C12", "C13", "C14", "C15", "C16", "C17", "C18", "C19"]:
+for _p in ["C06", "C09", "C13", "C14", "C15", "C16", "C18", "C19"]:
     if _p not in CLAIMED:
         NOT_APPLICABLE[_p] = PLANNED
